@@ -55,32 +55,44 @@ var rules = []rule{
 // Go's (sound, merely less repeatable).
 type orderedRange struct {
 	file, from, to string
+	// noImport: the replacement does not use verif/simcore
+	noImport bool
 }
 
 var orderedRanges = []orderedRange{
-	{"pkg/server/sync.go",
-		"for br, size := range sh.needCopy {",
-		"for _, br := range verifsimcore.SortedKeys(sh.needCopy) {\n\t\t\tsize := sh.needCopy[br]"},
-	{"pkg/index/receive.go",
-		"for br = range ix.readyReindex {",
-		"for _, br = range verifsimcore.SortedKeys(ix.readyReindex) {"},
-	{"pkg/index/index.go",
-		"for missing := range x.neededBy {",
-		"for _, missing := range verifsimcore.SortedKeys(x.neededBy) {\n\t\t\tif _, still := x.neededBy[missing]; !still {\n\t\t\t\tcontinue // deleted while ranging: Go would not produce it either\n\t\t\t}"},
+	// (not a map range: OSFS hands out the host-filesystem VFS; routed
+	// through the injected hook so that a contract-checking VFS can sit
+	// between the files store and osfs.go)
+	{file: "pkg/blobserver/files/osfs.go", from: "\treturn osFS{}\n", to: "\treturn verifWrapOSFS(osFS{})\n", noImport: true},
+	{file: "pkg/server/sync.go",
+		from: "for br, size := range sh.needCopy {",
+		to:   "for _, br := range verifsimcore.SortedKeys(sh.needCopy) {\n\t\t\tsize := sh.needCopy[br]"},
+	{file: "pkg/index/receive.go",
+		from: "for br = range ix.readyReindex {",
+		to:   "for _, br = range verifsimcore.SortedKeys(ix.readyReindex) {"},
+	{file: "pkg/index/index.go",
+		from: "for missing := range x.neededBy {",
+		to:   "for _, missing := range verifsimcore.SortedKeys(x.neededBy) {\n\t\t\tif _, still := x.neededBy[missing]; !still {\n\t\t\t\tcontinue // deleted while ranging: Go would not produce it either\n\t\t\t}"},
 }
 
 // applyOrderedRanges rewrites the listed range statements of file rel in src.
 func applyOrderedRanges(rel string, src []byte) ([]byte, bool) {
-	changed := false
+	changed, needImport := false, false
 	for _, o := range orderedRanges {
 		if o.file != rel || bytes.Count(src, []byte(o.from)) != 1 {
 			continue
 		}
 		src = bytes.Replace(src, []byte(o.from), []byte(o.to), 1)
 		changed = true
+		if !o.noImport {
+			needImport = true
+		}
 	}
 	if !changed {
 		return src, false
+	}
+	if !needImport {
+		return src, true
 	}
 	// a second import declaration right after the package clause
 	i := bytes.Index(src, []byte("\npackage "))
